@@ -1015,6 +1015,8 @@ class Fxp():
 
         # scaling reconversion
         if val is not None and self.scaled:
+            if isinstance(val, (np.ndarray, np.generic)) and val.dtype.kind == 'u':
+                val = val.astype(np.int64)      # unsigned raw values: a negative scale or bias must not wrap
             val = val * self.scale + self.bias
         return val
 
